@@ -37,6 +37,13 @@ class Hist:
         self.L += L
         self.ops.append("conn(%s,%s,%s,tick=%d,ems=%d,%s)" % (name, ver, suites, tick, ems, end))
         if name not in self.names: self.names.append(name)
+    def partial(self, name, steps, ver="T12", suites="0x2f", cauth=False):
+        """a handshake that stops after `steps` deliveries; its endpoints stay alive as cP / sP until drop()"""
+        so = "ver=%s%s" % (ver, " cb=strict" if cauth else "")
+        self.L += ["new sP server keys=ks %s" % so, "new cP client keys=kc ver=%s sid=%s suites=%s" % (ver, name, suites), "link cP sP", "pump cP sP max=%d" % steps, "state cP", "state sP"]
+        self.ops.append("partial(%s,%d)" % (name, steps))
+    def drop(self):
+        self.L += ["del cP", "del sP"]; self.ops.append("drop")
     def edit(self, name, what):
         self.L.append("sidedit %s %s" % (name, what)); self.ops.append("edit(%s,%s)" % (name, what))
     def clock(self, d):
@@ -146,7 +153,25 @@ def episodes(tier, seed):
         h.conn("A", end="fatal-rcvd"); h.conn("A")
     def fatal_on_resumed(h):
         h.conn("A"); h.conn("A", end="fatal-sent"); h.conn("A")
-    for nm, kind, f in [("Dtrunc", "id", trunc), ("DemsT", "ticket", emsflip_ticket), ("DemsT2", "ticket", emsflip_ticket2), ("DemsI", "id", emsflip_id),
+    def foreign_id_with_ticket(h):
+        # B holds its own ticket and presents A's session id next to it (the id travels in the clear): the server resumes B by
+        # ticket and echoes the id; afterwards neither B (by that id) nor A may find anything but what A's handshake stored
+        h.keyadd(); h.conn("A", suites="0x2f"); h.conn("B", suites="0x2f", tick=1); h.edit("B", "idfrom=A"); h.conn("B", suites="0x2f", tick=1)
+        h.conn("B", suites="0x2f", tick=0); h.conn("A", suites="0x2f")
+    def foreign_id_with_ticket13(h):
+        h.keyadd(); h.conn("A", suites="0x2f"); h.conn("B", ver="T13"); h.edit("B", "idfrom=A"); h.conn("B", ver="T13"); h.conn("A", suites="0x2f")
+    def foreign_id_plain(h):
+        h.conn("A"); h.conn("B"); h.edit("B", "idfrom=A"); h.conn("B"); h.conn("A"); h.conn("B")
+    def premature_zero(h):
+        # the id of a handshake that has only got as far as ServerHello, with the all-zero secret its cache entry holds until then
+        h.conn("X", suites="0x2f"); h.partial("Y", 2); h.edit("X", "idep=sP mszero=1"); h.conn("X", suites="0x2f"); h.drop(); h.conn("X", suites="0x2f")
+    def premature_cke(h):
+        # ... and of one that stopped after ClientKeyExchange (the client knows that secret), before Finished
+        h.conn("X", suites="0x2f"); h.partial("Y", 3); h.edit("X", "idep=sP msep=cP"); h.conn("X", suites="0x2f"); h.drop(); h.conn("X", suites="0x2f")
+    def premature_dropped(h):
+        # ... and after that handshake was abandoned without an alert
+        h.conn("X", suites="0x2f"); h.partial("Y", 3); h.edit("X", "idep=sP msep=cP"); h.drop(); h.conn("X", suites="0x2f")
+    for nm, kind, f in [("Dprem0", "id", premature_zero), ("DpremK", "id", premature_cke), ("DpremD", "id", premature_dropped), ("Dforeign", "mixed", foreign_id_with_ticket), ("Dforeign13", "mixed", foreign_id_with_ticket13), ("DforeignI", "id", foreign_id_plain), ("Dtrunc", "id", trunc), ("DemsT", "ticket", emsflip_ticket), ("DemsT2", "ticket", emsflip_ticket2), ("DemsI", "id", emsflip_id),
                         ("Drot", "ticket", rot), ("Dslot", "id", steal_slot), ("Dexp13", "psk", expire13), ("Dfatal", "id", fatal_then_resume),
                         ("Dfatal2", "id", fatal_on_resumed),
                         ("Dwrap", "id", wrap_ms), ("Dwrap2", "id", wrap_ms2), ("DwrapT", "ticket", wrap_tick)]:
